@@ -178,7 +178,7 @@ fn arb_list() -> BoxedStrategy<ListCase> {
 }
 
 fn run_lists(ctx: &mut Ctx) {
-    let cases = ctx.share(ctx.tier.pick(80_000, 3_000_000));
+    let cases = ctx.share(ctx.tier.pick(500_000, 5_000_000));
     run_strategy(ctx, "C16", "lists", cases, arb_list(), check_list);
 }
 
@@ -192,7 +192,7 @@ pub fn check_reject(text: &String, obs: &mut Obs) -> Result<(), String> {
 }
 
 fn run_reject(ctx: &mut Ctx) {
-    let cases = ctx.share(ctx.tier.pick(30_000, 1_000_000));
+    let cases = ctx.share(ctx.tier.pick(200_000, 2_000_000));
     let strat = (arb_list(), any::<u16>(), 0u8..9).prop_filter_map("nothing to corrupt", |(l, sel, kind)| {
         // keep quoted content free of braces, commas and quotes so the corruption is unambiguous
         let clean = l.elems.iter().all(|e| match e {
@@ -247,7 +247,7 @@ pub fn check_raw(b: &Bytes, obs: &mut Obs) -> Result<(), String> {
 }
 
 fn run_raw(ctx: &mut Ctx) {
-    let cases = ctx.share(ctx.tier.pick(80_000, 3_000_000));
+    let cases = ctx.share(ctx.tier.pick(500_000, 5_000_000));
     let soup = vec(0..TOKENS.len(), 0..10).prop_map(|ix| Bytes(ix.into_iter().flat_map(|i| TOKENS[i].bytes()).collect()));
     let braced = vec(0..TOKENS.len(), 0..8).prop_map(|ix| {
         let mut v = vec![b'{'];
